@@ -64,6 +64,46 @@ func init() {
 		a, b := args[0].(*SliceV), args[1].(*SliceV)
 		cont(st, fr, And(Eq(a.Len, b.Len), ex.contentEq(st, a, b, a.Len)))
 	}
+	intrinsics["strconv.FormatInt"] = strRes
+	intrinsics["strconv.FormatUint"] = strRes
+	intrinsics["encoding/hex.EncodeToString"] = func(ex *Exec, fr *Frame, in ssa.Instruction, fn *ssa.Function, args []Value, st *State, cont callCont) {
+		// opaque: a string determined by the bytes; modelled by a fresh string of length 2*len
+		s := args[0].(*SliceV)
+		r := FreshVar("hexstr", BV(64))
+		st.Assume(Eq(App("str_len", BV(64), r), BVBin("bvshl", s.Len, BVc(1, 64))))
+		cont(st, fr, r)
+	}
+	intrinsics["strings.TrimPrefix"] = func(ex *Exec, fr *Frame, in ssa.Instruction, fn *ssa.Function, args []Value, st *State, cont callCont) {
+		s := args[0].(*Term)
+		r := FreshVar("trimmed", BV(64))
+		st.Assume(BVCmp("bvule", App("str_len", BV(64), r), ex.eng.strLen(s)))
+		cont(st, fr, r)
+	}
+	intrinsics["encoding/hex.DecodeString"] = func(ex *Exec, fr *Frame, in ssa.Instruction, fn *ssa.Function, args []Value, st *State, cont callCont) {
+		// returns (fresh slice, err): totality of the stdlib decoder is assumed
+		str := args[0].(*Term)
+		base := st.FreshRegion()
+		n := FreshVar("hexlen", BV(64))
+		st.Assume(BVCmp("bvule", n, ex.eng.strLen(str)))
+		e := st.SymValue(errorType, "hexerr", *st.nextRg).(*IfaceV)
+		res := &TupleV{Elems: []Value{&SliceV{Base: base, Off: BVc(0, 64), Len: n, Cap: n}, e}}
+		// content unknown: havoc the fresh region lazily by reading through an unknown array is not
+		// possible (fresh regions read as zero), so store symbolic bytes up to a small bound only when needed
+		ex.havocFreshBytes(st, base, n)
+		cont(st, fr, res)
+	}
+	intrinsics["(*encoding/base64.Encoding).DecodeString"] = func(ex *Exec, fr *Frame, in ssa.Instruction, fn *ssa.Function, args []Value, st *State, cont callCont) {
+		str := args[1].(*Term)
+		base := st.FreshRegion()
+		n := FreshVar("b64len", BV(64))
+		st.Assume(BVCmp("bvule", n, ex.eng.strLen(str)))
+		e := st.SymValue(errorType, "b64err", *st.nextRg).(*IfaceV)
+		ex.havocFreshBytes(st, base, n)
+		cont(st, fr, &TupleV{Elems: []Value{&SliceV{Base: base, Off: BVc(0, 64), Len: n, Cap: n}, e}})
+	}
+	intrinsics["(*encoding/base64.Encoding).EncodeToString"] = func(ex *Exec, fr *Frame, in ssa.Instruction, fn *ssa.Function, args []Value, st *State, cont callCont) {
+		cont(st, fr, FreshVar("b64str", BV(64)))
+	}
 	// verification intrinsics used by lemma functions (package-local helpers, matched by suffix in callFunction)
 }
 
@@ -117,6 +157,12 @@ func (ex *Exec) builtin(fr *Frame, in ssa.Instruction, c *ssa.CallCommon, b *ssa
 		cont(st, fr, nil)
 	case "print", "println":
 		cont(st, fr, nil)
+	case "ssa:wrapnilchk":
+		p := args[0].(*Term)
+		if in != nil {
+			ex.safe(st, in, "nil", Neq(Rg(p), IntConst(0)))
+		}
+		cont(st, fr, p)
 	case "min", "max":
 		a, bb := args[0].(*Term), args[1].(*Term)
 		t := c.Args[0].Type()
@@ -161,6 +207,11 @@ func (ex *Exec) bulkCopy(st *State, in ssa.Instruction, et types.Type, dst, src 
 		}
 	}
 	if kindOf(et) != KScalar {
+		rg := Subst(Rg(dst.Base), st.substMap())
+		if why == "append-grow" && rg.IsConst() && rg.Val.Sign() > 0 {
+			ex.bulkCopyCompositeFresh(st, et, dst, src, n)
+			return
+		}
 		panic(abortPath{"bulk copy of composite elements with symbolic length (" + why + ")"})
 	}
 	if in != nil {
@@ -258,4 +309,58 @@ func (ex *Exec) contentEq(st *State, a, b *SliceV, n *Term) *Term {
 	arr := st.mem.arr(BV(8), st.memGen)
 	body := Implies(BVCmp("bvult", i, n), Eq(mk("select", BV(8), arr, a.ElemAddr(i)), mk("select", BV(8), arr, b.ElemAddr(i))))
 	return Forall([]*Term{i}, body)
+}
+
+// havocFreshBytes: the content of a freshly allocated byte region is unknown (e.g. decoder output).
+func (ex *Exec) havocFreshBytes(st *State, base *Term, n *Term) {
+	srt := BV(8)
+	oldArr := st.mem.arr(srt, st.memGen)
+	newArr := FreshVar("mem_h", oldArr.Sort)
+	st.mem.arrs[srt] = newArr
+	a := BoundVar("a$hb", SAddr)
+	st.Assume(Forall([]*Term{a}, Implies(Not(Eq(Rg(a), Rg(base))), Eq(mk("select", srt, newArr, a), mk("select", srt, oldArr, a)))))
+}
+
+// bulkCopyCompositeFresh: copy n composite elements into a freshly allocated region:
+// per scalar leaf of the element type, forall j < n. M'[dst_j.leaf] = M[src_j.leaf];
+// everything outside the fresh region is unchanged.
+func (ex *Exec) bulkCopyCompositeFresh(st *State, et types.Type, dst, src *SliceV, n *Term) {
+	type leaf struct {
+		srt  Sort
+		path func(a *Term) *Term
+	}
+	j := BoundVar("j$cc", BV(64))
+	dj := dst.ElemAddr(j)
+	sj := src.ElemAddr(j)
+	bySort := map[Sort][][2]*Term{}
+	var dl, sl []struct {
+		s Sort
+		a *Term
+	}
+	forEachLeaf(et, dj, func(s Sort, a *Term) {
+		dl = append(dl, struct {
+			s Sort
+			a *Term
+		}{s, a})
+	})
+	forEachLeaf(et, sj, func(s Sort, a *Term) {
+		sl = append(sl, struct {
+			s Sort
+			a *Term
+		}{s, a})
+	})
+	for i := range dl {
+		bySort[dl[i].s] = append(bySort[dl[i].s], [2]*Term{dl[i].a, sl[i].a})
+	}
+	for srt, pairs := range bySort {
+		oldArr := st.mem.arr(srt, st.memGen)
+		newArr := FreshVar("mem_cc", oldArr.Sort)
+		st.mem.arrs[srt] = newArr
+		a := BoundVar("a$cc", SAddr)
+		st.Assume(Forall([]*Term{a}, Implies(Not(Eq(Rg(a), Rg(dst.Base))), Eq(mk("select", srt, newArr, a), mk("select", srt, oldArr, a)))))
+		for _, pr := range pairs {
+			st.Assume(Forall([]*Term{j}, Implies(BVCmp("bvult", j, n), Eq(mk("select", srt, newArr, pr[0]), mk("select", srt, oldArr, pr[1])))))
+		}
+	}
+	ex.intrUsed["quantified-copy"] = true
 }
